@@ -921,7 +921,7 @@ func Cat(a, b *Term) *Term {
 	}
 	la, oka := Blen(a).U64()
 	lb, okb := Blen(b).U64()
-	if oka && okb && la+lb <= 256 {
+	if oka && okb && la+lb <= 256 && a.Op == "mkb" && b.Op == "mkb" {
 		out := ZeroArr
 		for i := uint64(0); i < la; i++ {
 			out = storeNZ(out, i, Select(Barr(a), BVU(64, i)))
